@@ -50,6 +50,9 @@ def corpus():
     # literal before wildcard with backtracking; prefix splits
     cs.append(dict(cmds=_adds(['/ab', '/abc', '/abd', '/a/<x>', '/a/<x>/c', '/a/b/c', '/a/b'])
                    + _probes(['/ab', '/abc', '/abd', '/abe', '/a', '/a/b', '/a/b/c', '/a/q/c', '/a/b/d', '/a//c', '/a/', 'a/b/', '//a/b//'])))
+    # two look_back entries live at once: the deepest wildcard must be retried first (LIFO)
+    cs.append(dict(cmds=_adds(['/a/b/d', '/a/<y>/c', '/<x>/b/c', '/<x>/<y>/c', '/a/b/<z>/e'])
+                   + _probes(['/a/b/c', '/a/q/c', '/q/b/c', '/q/q/c', '/a/b/d', '/a/b/q', '/a/b/q/e'])))
     # conflicting filters: the second add is rejected
     cs.append(dict(cmds=_adds(['/a/<x:int>', '/a/<x>', '/a/<y:int>/z', '/a/<x:re:[a-c]+>'])
                    + _probes(['/a/12', '/a/zz', '/a/12/z', '/a/ab', '/a/١٢', '/a/-3/z', '/a/1.5'])))
@@ -66,9 +69,38 @@ def corpus():
     return cs
 
 
+def _family(rng):
+    """one literal rule of 2..4 segments + variants with subsets of its segments replaced by wildcards (and one
+    final literal changed): several look_back entries are live at once and only the LIFO order gives the best rule"""
+    k = rng.randrange(2, 5)
+    lits = [rng.choice(['a', 'b', 'c', 'ab', 'x.y']) for _ in range(k)]
+    out = []
+    masks = rng.sample(range(1, 2 ** k), min(2 ** k - 1, rng.randrange(2, 6)))
+    for mask in [0] + masks:
+        segs = []
+        for i in range(k):
+            if mask >> i & 1:
+                segs.append([('W', 'p%d' % i, rng.choice(['plain', 'plain', 'plain', 're']))])
+            else:
+                segs.append([('L', lits[i])])
+        if mask == 0 or rng.random() < 0.3:
+            segs[-1] = [('L', rng.choice(['d', 'zz']))]       # the all-literal branch dead-ends
+        out.append((L.render_rule(rng, segs), segs))
+    return out, '/' + '/'.join(lits)
+
+
 def gen(rng, n):
     n_mal = n // 12
     for _ in range(n - n_mal):
+        if rng.random() < 0.3:
+            base, hit = _family(rng)
+            order = list(base)
+            rng.shuffle(order)
+            cmds = [dict(op='add', rule=r, methods=['GET'], h=i) for i, (r, _s) in enumerate(order)]
+            paths = [hit] + [L.mutate_path(rng, hit) for _k in range(3)] + [L.mutate_path(rng, L.instantiate(rng, sg))
+                                                                          for _r, sg in rng.sample(base, min(3, len(base)))]
+            yield dict(cmds=cmds + _probes(paths))
+            continue
         base = [L.gen_rule(rng) for _ in range(rng.randrange(2, 7))]
         # force sharing: extend / vary existing rules
         for _k in range(rng.randrange(0, 4)):
